@@ -450,6 +450,10 @@ func (m *jcStatusMonitor) after(o sOp) {
 		ns, ne := mtz(st.LastScheduled), mtz(st.LastExecuted)
 		if m.lastSched != nil && (ns == nil || *ns < *m.lastSched) {
 			m.hit("C15/last-scheduled-moved-backwards", fmt.Sprintf("lastScheduled went from %d to %v", *m.lastSched, fmtp(ns)))
+			// the same event seen from C04: the stored value is where a restarted cron controller
+			// resumes, so every schedule time in (new, old] - already recorded once - is requested again
+			m.hits = append(m.hits, MonitorHit{Property: "C04", Signature: "C04/recorded-schedule-time-forgotten",
+				What: fmt.Sprintf("status.lastScheduled went from %d back to %v: a controller restarting now resumes from the older value and requests again the schedule times up to %d that were already recorded", *m.lastSched, fmtp(ns), *m.lastSched)})
 		}
 		if m.lastExec != nil && (ne == nil || *ne < *m.lastExec) {
 			m.hit("C15/last-executed-moved-backwards", fmt.Sprintf("lastExecuted went from %d to %v", *m.lastExec, fmtp(ne)))
